@@ -134,8 +134,51 @@ def same_second_history(rng):
     return ops
 
 
+KS_PFX = ["s", "s1", "s11", "s1/", "s/1", "c", "c1", "c11", "ab", "a"]
+KS_MIDS = [1, 11, 111, 2, 12, 257, 513, 55296, 55300, 57343, 65533, 65535, 4660, 13330]
+
+
+def key_space_history(rng):
+    """the table is keyed by (session, identifier): sessions whose ids are prefixes of one another (with digits or the
+    separator following), identifiers whose decimal / byte / code-point renderings could run together (1 and 11 and 111,
+    1 and 257, the UTF-16 surrogate range, 65533) — distinct pairs are distinct entries, an acknowledgement or a sweep
+    for one pair never touches another"""
+    ops = ["new"]
+    pairs = rng.sample([(p, m) for p in KS_PFX for m in KS_MIDS], rng.choice([4, 6, 9]))
+    if rng.random() < 0.7:
+        # force a pair of pairs that collide under separator-less or truncating keys
+        a, b = rng.choice([(("s1", 11), ("s11", 1)), (("c", 111), ("c11", 1)), (("s", 55296), ("s", 55300)), (("s", 57343), ("s", 65533)),
+                           (("s", 1), ("s", 257)), (("s1", 1), ("s", 11)), (("a", 4660), ("a", 13330)), (("s1/", 1), ("s1", 1))])
+        pairs = [x for x in pairs if x not in (a, b)] + [a, b]
+    rng.shuffle(pairs)
+    live = []
+    for (p, m) in pairs:
+        kind, qos = rng.choice([("publish", 1), ("publish", 2), ("pubrel", 0)])
+        ops.append(f"ins {p} {kind} {qos} {m} {rng.choice([3000, 3400, 4600, 6000])}")
+        live.append((p, m, {("publish", 1): "puback", ("publish", 2): "pubrec", ("pubrel", 0): "pubcomp"}[(kind, qos)]))
+    others = [(p, m) for p in KS_PFX for m in KS_MIDS if (p, m) not in pairs]
+    for _ in range(rng.choice([2, 4])):
+        p, m = rng.choice(others)
+        ops.append(f"ack {p} {rng.choice(['puback', 'pubrec', 'pubcomp'])} {m}")       # nobody holds that pair
+    for (p, m, a) in rng.sample(live, max(1, len(live) // 2)):
+        ops.append(f"ack {p} {a} {m}")
+    ops.append("exp 3001")
+    ops.append("exp 30000")
+    return ops
+
+
+def add_key_space_suite(c, samples, n):
+    ops, cases = [], 0
+    for _ in range(n):
+        ops += key_space_history(c.rng)
+        cases += 1
+    c.run_suite(Suite("ackq-key-space", "ackq", ops, monitor, {"cases": cases, "nontrivial": cases}))
+    samples.append({"suite": "ackq-key-space", "ops": ops[:12]})
+
+
 def add_queue_suites(c, samples, exhaustive_n, n_random):
     rng = c.rng
+    add_key_space_suite(c, samples, max(60, n_random // 10))
     # exhaustive short histories over 2 sessions x 2 ids x 3 deadlines
     steps = [f"ins {p} publish 1 {m} {d}" for p in PFX for m in (1, 2) for d in (3000, 3400, 4600)][:8]
     steps += [f"ack {p} {k} {m}" for p in ("s",) for k in ("puback", "pubcomp") for m in (1, 2)]
